@@ -172,12 +172,14 @@ class Supervisor(object):
             return False
         os.write(self.fd, b"%d\n" % idx)
         if self.timeout:
-            signal.setitimer(signal.ITIMER_REAL, self.timeout)
+            # CPU time of this process (user+system), not wall-clock: a loaded machine must not turn
+            # a slow case into a "hang"; the kernels have no locks or sleeps, a hang burns CPU
+            signal.setitimer(signal.ITIMER_PROF, self.timeout)
         return True
 
     def end(self):
         if self.timeout:
-            signal.setitimer(signal.ITIMER_REAL, 0)
+            signal.setitimer(signal.ITIMER_PROF, 0)
 
 
 def _supervised_child(modname, unit, skip, timeout, wfd, outpath, errpath):
@@ -186,7 +188,7 @@ def _supervised_child(modname, unit, skip, timeout, wfd, outpath, errpath):
     os.dup2(efd, 2)
     os.close(efd)
     _init_worker(modname)
-    signal.signal(signal.SIGALRM, signal.SIG_DFL)     # kills even inside C
+    signal.signal(signal.SIGPROF, signal.SIG_DFL)     # kills even inside C
     r = Result()
     r.current_unit = unit
     r.sup = Supervisor(wfd, skip, timeout)
@@ -194,7 +196,7 @@ def _supervised_child(modname, unit, skip, timeout, wfd, outpath, errpath):
         _MOD.run_unit(unit, r)
     except BaseException:
         r.incomplete.append("unit %r raised: %s" % (unit, traceback.format_exc()[-3000:]))
-    signal.setitimer(signal.ITIMER_REAL, 0)
+    signal.setitimer(signal.ITIMER_PROF, 0)
     r.sup = None
     with open(outpath, "wb") as f:
         pickle.dump(r, f)
@@ -276,8 +278,8 @@ def run_supervised(mod, units, jobs, timeout=20.0, max_crashes=25):
                 err = ""
             if os.WIFSIGNALED(status):
                 desc = "signal %d" % os.WTERMSIG(status)
-                if os.WTERMSIG(status) == signal.SIGALRM:
-                    desc = "timeout > %gs (SIGALRM)" % timeout
+                if os.WTERMSIG(status) == signal.SIGPROF:
+                    desc = "timeout > %gs of CPU time (SIGPROF)" % timeout
             else:
                 desc = "exit status %d" % os.WEXITSTATUS(status)
             crashes.append(dict(ui=st["ui"], unit=st["unit"], idx=st["last"],
